@@ -144,8 +144,8 @@ def depth(t):
 # ---------------------------------------------------------------------------------------------- the property
 class C16(Prop):
     ID = 'C16'
-    N_QUICK = 12000
-    N_THOROUGH = 60000
+    N_QUICK = 9600
+    N_THOROUGH = 40000
     CASE_TIMEOUT = 120
     RULE = ('step mode: per function and for nestings up to depth 3 (time functions + ADD/SUB/GT/LT/NOT), histories of '
             '(now_ms, port values) with regular 50 ms ticks, irregular gaps (boundary-heavy around the literal '
